@@ -15,6 +15,21 @@ class E1Prop:
     NOPS = (8, 22)
     LOG_LEVEL = logging.INFO
     RUN_TIMEOUT = 600
+    REAL = ['bert_e.bert_e.BertE (put_job, process_task, process)',
+            'bert_e.workflow.* (gitwaterflow, integration, queueing, '
+            'branches, commands, jira, git_utils, pr_utils)',
+            'bert_e.jobs.* (admin jobs)', 'bert_e.reactor',
+            'bert_e.lib.git / simplecmd / retry', 'bert_e.settings',
+            'bert_e.git_host.mock (the in-repo fake host)',
+            'git 2.39 binary: bare remote, mirror cache, working clones']
+    STUBBED = ['users, reviewers, admins, CI, webhook delivery (simulated '
+               'actors driving the mock host and a second clone)',
+               'Jira (in-process fake behind bert_e.lib.jira.JiraIssue)',
+               'clock, uuid, temp-dir names, HOME, git dates (seams)',
+               'Bitbucket/GitHub HTTP (not used in E1: mock host)']
+    ASSUMPTIONS = ['the mock host stands for the real hosts',
+                   'faults are placed at operation boundaries',
+                   'seeded sampling, not exhaustive']
 
     def gen_config(self, rng, tier):
         return ops.gen_config(rng, self.PROFILE)
